@@ -527,11 +527,15 @@ Section ResidEntry.
   Theorem ts_vregx_resid_chk_eq (K : rstat) body w mp (xs : list T1) (ys : list T2) :
     ts_vregx_resid_chk K body w mp xs ys = ts_vregx_resid K body w mp xs ys.
   Proof.
-    unfold ts_vregx_resid_chk, ts_vregx_resid, rolling2_apply_idx_to, rolling2_apply_idx_default.
-    set (zs := combine xs ys). set (m := mp_eff mp w 0).
+    unfold ts_vregx_resid_chk, ts_vregx_resid. cbv zeta. rewrite rolling2_apply_idx_default_unfold.
+    unfold rolling2_apply_idx_to.
     destruct body; cbn [andb].
-    - destruct (length ys <? length xs); [reflexivity|].
-      destruct w as [|w].
+    2: destruct (bad_window w xs); [reflexivity|].
+    1: destruct (length ys <? length xs) eqn:E; [reflexivity|]; apply Nat.ltb_ge in E;
+       destruct (bad_window w xs) eqn:Hb;
+       [unfold rolling_apply_idx_to; rewrite bad_window_combine_le, Hb by exact E; reflexivity|].
+    all: set (zs := combine xs ys); set (m := mp_eff mp w 0).
+    - destruct w as [|w].
       + destruct zs as [|z zs']; [rewrite idx_run_nil_any; symmetry; apply empty_input_idx|].
         rewrite idx_run_w0 by discriminate. reflexivity.
       + rewrite (idx_run_refine true (S w) _ (resid_cb K m zs) csum0 zs
@@ -555,21 +559,12 @@ Section ResidEntry.
                  length out = Nat.min (length xs) (length ys)) \/
     ts_vregx_resid K body w mp xs ys = Panicked AssertFail.
   Proof.
-    unfold ts_vregx_resid, rolling2_apply_idx_to, rolling2_apply_idx_default.
-    set (zs := combine xs ys). set (m := mp_eff mp w 0).
-    assert (Hz : length zs = Nat.min (length xs) (length ys)) by apply combine_length.
-    destruct body.
-    - destruct (length ys <? length xs); [right; reflexivity|].
-      destruct w as [|w].
-      + destruct zs as [|z zs'] eqn:Ez; [left; exists []; split; [apply empty_input_idx|rewrite <- Hz; reflexivity]|].
-        right. apply window0_rejected_idx_to. discriminate.
-      + left. rewrite rolling_apply_idx_to_eq by lia. eexists. split; [reflexivity|].
-        rewrite run_length. unfold args_to_idx. rewrite mapi_length. exact Hz.
-    - destruct w as [|w].
-      + destruct zs as [|z zs'] eqn:Ez; [left; exists []; split; [apply empty_input_idx|rewrite <- Hz; reflexivity]|].
-        right. unfold rolling_apply_idx_default, bad_window. reflexivity.
-      + left. rewrite rolling_apply_idx_default_eq by lia. eexists. split; [reflexivity|].
-        rewrite run_length, mapi_length. exact Hz.
+    unfold ts_vregx_resid. cbv zeta. destruct body.
+    - rewrite rolling2_apply_idx_to_total. destruct (length ys <? length xs); [right; reflexivity|].
+      destruct (bad_window w xs); [right; reflexivity|]. left. eexists. split; [reflexivity|].
+      unfold args_to_idx. rewrite run_length, mapi_length, combine_length. reflexivity.
+    - rewrite rolling2_apply_idx_default_total. destruct (bad_window w xs); [right; reflexivity|].
+      left. eexists. split; [reflexivity|]. rewrite run_length, mapi_length, combine_length. reflexivity.
   Qed.
 End ResidEntry.
 
@@ -690,7 +685,7 @@ Section EntryTraceFacts2.
     - pose proof (ts_vregx_resid_chk_eq (A := A) K true w mp xs ys) as E.
       unfold ts_vregx_resid_chk in E. cbn [andb] in E.
       replace (length ys <? length xs) with false in E by (symmetry; apply Nat.ltb_ge; exact Hl).
-      fold zs in E. rewrite E.
+      rewrite Hb in E. fold zs in E. rewrite E.
       destruct (ts_vregx_resid_safe (A := A) K true w mp xs ys) as [(out & Hd & Ho)|Hp].
       + left. exists out. split; [exact Hd|]. rewrite Ho, Hz. lia.
       + right. unfold bad_window in Hb. destruct w as [|w].
